@@ -868,8 +868,12 @@ func c03Rebuild(c *Ctx) {
 			recv := call.Common().Args[0]
 			// a database freshly constructed in this function and not yet searched may defer to... no: it must build the re-ranker too (LoadDatabase does)
 			eng := pathev.New(func(in ssa.Instruction) []string {
-				if c2, ok := in.(*ssa.Call); ok && ssau.CallName(c2) == tn && sameDB(c2.Common().Args[0], recv) {
-					return []string{"tfidf"}
+				if c2, ok := in.(*ssa.Call); ok && c2 != call {
+					for _, t := range rebuildTags(c2, bn, tn, func(v ssa.Value) bool { return sameDB(v, recv) }, 0) {
+						if t == "tfidf" {
+							return []string{"tfidf"}
+						}
+					}
 				}
 				return nil
 			}, nil)
@@ -903,14 +907,10 @@ func c03Rebuild(c *Ctx) {
 				return
 			}
 			m++
+			dbv := fa.X
 			eng := pathev.New(func(i2 ssa.Instruction) []string {
 				if c2, ok := i2.(*ssa.Call); ok {
-					switch ssau.CallName(c2) {
-					case bn:
-						return []string{"build"}
-					case tn:
-						return []string{"tfidf"}
-					}
+					return rebuildTags(c2, bn, tn, func(v ssa.Value) bool { return sameDB(v, dbv) || v == dbv }, 0)
 				}
 				return nil
 			}, nil)
@@ -923,6 +923,48 @@ func c03Rebuild(c *Ctx) {
 			r.Check(ok2, "O-5", fmt.Sprintf("%s#replaces-commands-%d", load.FuncKey(fn), m), c.P.Pos(st.Pos()), "followed by both rebuilds", "the command list of an existing database is replaced without rebuilding both the inverted index and the re-ranker on every path")
 		})
 	}
+}
+
+// rebuildTags: the rebuild events a call performs on the database recognised
+// by isDB: the index build and/or the re-ranker build themselves, or a method
+// of the repository called on that database which performs them on its own
+// receiver on every path (db.rebuildSearchStructures()).
+func rebuildTags(call *ssa.Call, bn, tn string, isDB func(ssa.Value) bool, d int) []string {
+	if len(call.Common().Args) == 0 || !isDB(call.Common().Args[0]) {
+		return nil
+	}
+	switch ssau.CallName(call) {
+	case bn:
+		return []string{"build"}
+	case tn:
+		return []string{"tfidf"}
+	}
+	w := call.Common().StaticCallee()
+	if w == nil || w.Blocks == nil || len(w.Params) == 0 || d > 2 || !strings.HasPrefix(ssau.FuncName(w), "(*"+dbType+")") && !strings.HasPrefix(ssau.FuncName(w), load.ModulePath) {
+		return nil
+	}
+	recv := w.Params[0]
+	inner := pathev.New(func(in ssa.Instruction) []string {
+		if c2, ok := in.(*ssa.Call); ok {
+			return rebuildTags(c2, bn, tn, func(v ssa.Value) bool { return v == ssa.Value(recv) || ssau.ParamOf(v) == recv }, d+1)
+		}
+		return nil
+	}, nil)
+	var out []string
+	for _, t := range []string{"build", "tfidf"} {
+		all := true
+		n := 0
+		for _, m := range inner.Exits(w) {
+			n++
+			if !m.Get(t).Always() {
+				all = false
+			}
+		}
+		if all && n > 0 {
+			out = append(out, t)
+		}
+	}
+	return out
 }
 
 func sameDB(a, b ssa.Value) bool {
